@@ -37,6 +37,14 @@ just before the next doWrite) or is ONE list object the caller keeps refilling a
 bytes written are those in the list at the time of the call, whatever the caller does to its own
 list later.
 
+Producer hooks are application code that re-enters the transport: resumeProducing writes,
+writeSequences, half-closes, closes, unregisters itself or hands over to a successor producer, and
+sometimes raises after its work (the failure disconnects the descriptor; the byte oracle still
+applies); pauseProducing (once per producer) writes, unregisters or closes; stopProducing writes
+(must be ignored) or registers a producer on the dead transport.  doWrite acceptances include the
+limit boundaries: exactly SEND_LIMIT (+-1) accepted or left unsent, exactly bufferSize (+-1) left
+outstanding.  Not judged (statement silent): a raising pauseProducing/stopProducing.
+
 Guards (latitude the code legitimately has): writes after loseConnection() but before the close are
 accepted (only "everything before loseConnection" is required at close); a streaming, un-paused
 producer does not delay the close; a producer registered on an already full buffer is only paused
@@ -62,7 +70,8 @@ SHARDS = {"quick": 4, "thorough": 16}
 FLOORS = {"doWrite_calls": 5000, "partial_accepts": 300, "zero_accepts": 100, "bytes_accepted": 1000000, "orderly_closes": 50,
           "pause_checks": 100, "drain_resume_checks": 100, "halfclose_checks": 20, "closes_deferred_for_pull_producer": 10,
           "closes_with_data_written_before_loseconnection": 30, "histories_with_big_buffer": 20,
-          "halfclose_close_scripts": 100, "closes_while_halfclose_pending": 30, "caller_list_mutations": 500}
+          "halfclose_close_scripts": 100, "closes_while_halfclose_pending": 30, "caller_list_mutations": 500,
+          "reentrant_hook_calls": 300, "producer_swaps_in_hook": 30, "hook_raises": 50, "boundary_accepts": 200}
 READY = True
 
 import os
@@ -82,6 +91,10 @@ def tape():
 
 class Bad(Exception):
     """Raised inside a case to stop it after a violation has been recorded."""
+
+
+class PlannedHookError(Exception):
+    """Raised on purpose by a producer hook after it did its work."""
 
 
 def make_world(ctx, rng, case):
@@ -126,6 +139,8 @@ def make_world(ctx, rng, case):
     w.stats = {"partial": 0, "zero": 0, "dowrite": 0}
     w.plan_accept = None
     w.stopped = False
+    w.hook_depth = 0
+    w.callout_depth = 0
     w.caller_buf = []  # the caller's reusable output list for writeSequence
     w.caller_own = 0
     w.deferred_mut = []
@@ -161,7 +176,14 @@ def make_world(ctx, rng, case):
             if how == "raise":
                 w.log.append(["os", n_off, "raise"])
                 raise OSError("adversary")
-            n = min(n_off, {"all": n_off, "zero": 0, "one": 1, "allbut1": max(0, n_off - 1), "half": n_off // 2}.get(how, how if isinstance(how, int) else n_off))
+            out_now = w.expect_end - w.accepted
+            table = {"all": n_off, "zero": 0, "one": 1, "allbut1": max(0, n_off - 1), "half": n_off // 2,
+                     # boundary acceptances: leave exactly SEND_LIMIT (+-1) unsent in dataBuffer / exactly bufferSize (+-1) outstanding
+                     "leave_sl": n_off - self.SEND_LIMIT, "leave_sl+1": n_off - self.SEND_LIMIT - 1, "leave_sl-1": n_off - self.SEND_LIMIT + 1,
+                     "leave_bs": out_now - self.bufferSize, "leave_bs+1": out_now - self.bufferSize - 1, "leave_bs-1": out_now - self.bufferSize + 1}
+            n = max(0, min(n_off, table.get(how, how if isinstance(how, int) else n_off)))
+            if isinstance(how, str) and how.startswith("leave_") and 0 < n < n_off:
+                ctx.count("boundary_accepts")
             w.log.append(["os", n_off, n])
             if n:
                 got = bytes(data[:n])
@@ -228,14 +250,40 @@ def make_world(ctx, rng, case):
             w.producer = None
 
     class Producer:
+        """Application code at the other end of the call-outs.  Its hooks re-enter the transport
+        (write/writeSequence/loseConnection/loseWriteConnection/unregister/register a successor)
+        and resumeProducing sometimes raises after doing its work."""
+
         def __init__(self, streaming):
             self.streaming = streaming
             self.paused = False
             self.resumes = self.pauses = self.stops = 0
             self.quota = rng.choice([0, 1, 2, 3, 6])  # pull: number of resumes that write something
             self.id = len(w.log)
+            self.pause_hooked = False
 
         def resumeProducing(self):
+            w.callout_depth += 1
+            try:
+                self._resume()
+            finally:
+                w.callout_depth -= 1
+
+        def pauseProducing(self):
+            w.callout_depth += 1
+            try:
+                self._pause()
+            finally:
+                w.callout_depth -= 1
+
+        def stopProducing(self):
+            w.callout_depth += 1
+            try:
+                self._stop()
+            finally:
+                w.callout_depth -= 1
+
+        def _resume(self):
             self.resumes += 1
             self.paused = False
             w.log.append(["P.resume", self.id])
@@ -257,15 +305,58 @@ def make_world(ctx, rng, case):
                         do_lose()
             elif r < 0.5:
                 do_write(pick_size(), "P.write")  # push producers commonly write straight away
+            x = rng.random()
+            if x < 0.08:
+                ctx.count("reentrant_hook_calls")
+                do_write_sequence([rng.randint(0, 2000), pick_size() // 8], rng.choice(["list", "reused-list", "tuple"]), "P.writeSequence")
+            elif x < 0.11:
+                ctx.count("reentrant_hook_calls")
+                do_lose_write()
+            elif x < 0.17 and w.producer is self and w.hook_depth < 3:
+                # hand over to a successor from inside the call-out
+                ctx.count("reentrant_hook_calls")
+                ctx.count("producer_swaps_in_hook")
+                w.hook_depth += 1
+                try:
+                    do_unregister()
+                    do_register(rng.random() < 0.6)
+                finally:
+                    w.hook_depth -= 1
+            elif x < 0.20:
+                ctx.count("hook_raises")
+                w.log.append(["P.resume raises", self.id])
+                raise PlannedHookError("resumeProducing %d" % self.id)
 
-        def pauseProducing(self):
+        def _pause(self):
             self.pauses += 1
             self.paused = True
             w.log.append(["P.pause", self.id])
+            if w.stopped or self.pause_hooked or rng.random() > 0.2:
+                return
+            self.pause_hooked = True  # once per producer: a write from here re-enters pauseProducing
+            ctx.count("reentrant_hook_calls")
+            x = rng.random()
+            if x < 0.5:
+                do_write(rng.randint(0, 300), "P.write(in pause)")
+            elif x < 0.75 and w.producer is self:
+                do_unregister()
+            else:
+                do_lose()
 
-        def stopProducing(self):
+        def _stop(self):
             self.stops += 1
             w.log.append(["P.stop", self.id])
+            if w.stopped or w.hook_depth >= 3 or rng.random() > 0.3:
+                return
+            ctx.count("reentrant_hook_calls")
+            w.hook_depth += 1
+            try:
+                if rng.random() < 0.6 or fd.producer is not None:  # (during connectionLost the old producer is still set)
+                    do_write(rng.randint(1, 500), "P.write(in stop)")  # the transport is gone: must be ignored
+                else:
+                    do_register(rng.random() < 0.5)  # on a dead transport: gets stopProducing at once
+            finally:
+                w.hook_depth -= 1
 
     reactor = FakeReactor()
     fd = FD(reactor)
@@ -390,7 +481,9 @@ def make_world(ctx, rng, case):
         return len(fd.dataBuffer) - fd.offset + fd._tempDataLen
 
     def invariants(label):
-        if not w.alive:
+        # only between top-level operations: inside a call-out the transport method that made it
+        # has not finished yet (e.g. write() pauses the producer BEFORE it registers for writing)
+        if not w.alive or w.callout_depth:
             return
         out = w.expect_end - w.accepted
         real = _real_outstanding()
@@ -412,7 +505,10 @@ def make_world(ctx, rng, case):
         if w.alive:
             w.producer = p
         dead_before = not w.alive
-        fd.registerProducer(p, streaming)  # pull: resumeProducing() runs re-entrantly here
+        try:
+            fd.registerProducer(p, streaming)  # pull: resumeProducing() runs re-entrantly here
+        except PlannedHookError:
+            pass  # the application's own error comes back to the application; the producer stays registered
         if dead_before:
             ctx.count("registrations_on_dead_transport_stopped" if p.stops == 1 else "registrations_on_dead_transport_not_stopped")  # evidence only
         invariants("register")
@@ -531,7 +627,8 @@ def run_case(ctx, case):
                 container = "list" if c > 0.55 else "reused-list" if c > 0.2 else "tuple" if c > 2 * one_shot_p else "iter" if c > one_shot_p else "gen"
                 ops["writeSequence"](sizes, container)
             elif r < 0.70:
-                how = rng.choice(["all", "all", "zero", "one", "allbut1", "half", rng.randint(0, 200000), rng.randint(0, 3000), fd.SEND_LIMIT])
+                how = rng.choice(["all", "all", "zero", "one", "allbut1", "half", rng.randint(0, 200000), rng.randint(0, 3000), fd.SEND_LIMIT,
+                                  fd.SEND_LIMIT - 1, fd.SEND_LIMIT + 1, "leave_sl", "leave_sl+1", "leave_sl-1", "leave_bs", "leave_bs+1", "leave_bs-1"])
                 x = rng.random()
                 if x < 0.005:
                     how = "lost"
